@@ -144,6 +144,7 @@ func (nr *NativeRunner) Run(files []ReplayFile) ([]NativeResult, error) {
 		cmd.Dir = nr.repo
 		cmd.Env = append(os.Environ(), "VERIF_REPLAY="+strings.Join(ps, string(os.PathListSeparator)))
 		out, err := cmd.CombinedOutput()
+		raceSeen := nr.race && strings.Contains(string(out), "WARNING: DATA RACE")
 		sc := bufio.NewScanner(strings.NewReader(string(out)))
 		sc.Buffer(make([]byte, 1<<20), 1<<26)
 		done := map[string]bool{}
@@ -159,6 +160,9 @@ func (nr *NativeRunner) Run(files []ReplayFile) ([]NativeResult, error) {
 				p := rest[:sp]
 				if i, ok := idx[p]; ok {
 					results[i].Status = rest[sp+1:]
+					if raceSeen && len(ps) == 1 && results[i].Status == "ok" {
+						results[i].Status = "race msg=the race detector reported a data race while the harness ran the calls concurrently"
+					}
 					done[p] = true
 				}
 			case strings.HasPrefix(line, "VERIF-OBS file="):
@@ -208,7 +212,10 @@ func (nr *NativeRunner) Run(files []ReplayFile) ([]NativeResult, error) {
 		}
 		return nil
 	}
-	const chunk = 400
+	chunk := 400
+	if nr.race {
+		chunk = 1
+	}
 	for i := 0; i < len(paths); i += chunk {
 		j := i + chunk
 		if j > len(paths) {
